@@ -39,7 +39,15 @@ def cond_for(rng, kind, child_keys):
             leaves.append(Value.allowed_keys(*ks))
         req = [k for k in ks if rng.random() < 0.4]
         if req and rng.random() < 0.85:
-            leaves.append(Value.required_keys(*req))
+            if len(req) >= 2 and rng.random() < 0.4:
+                # several required_keys (and allowed_keys) conditions in one and-combination
+                cut = rng.randint(1, len(req) - 1)
+                leaves.append(Value.required_keys(*req[:cut]))
+                leaves.append(Value.required_keys(*req[cut:]))
+                if rng.random() < 0.5:
+                    leaves.append(Value.allowed_keys(*ks))
+            else:
+                leaves.append(Value.required_keys(*req))
     if not leaves:
         leaves.append(Value.truthy())
     rng.shuffle(leaves)
